@@ -137,11 +137,19 @@ pub fn view(thorough: bool) -> Report {
         for s in &seqs { if s.len() == seqs.last().map(|l| l.len()).unwrap_or(1) { for e in 0..n { let mut t = s.clone(); t.push(e); nx.push(t); } } }
         seqs.extend(nx);
     }
+    let sig_of = |seq: &Vec<usize>, evs: &Vec<Ev>, step: usize| format!("canvas sequence {:?} step {step}", seq.iter().map(|&i| evs[i]).collect::<Vec<_>>());
     for seq in &seqs {
         r.cases += 1;
         let mut c2 = Canvas2::new(sizes2[0]);
         let mut c3 = Canvas3::new(VoxelSize::new(300, 300, 300));
         let mut mode3: Option<u8> = None;   // 0 none, 1 pan, 2 rotate (mode of the drag in progress)
+        // the pan clause: the model point grabbed when the drag started stays under the cursor (checked while every scroll of the sequence
+        // is moderate and every cursor position known; sizes are fixed during a drag)
+        let mut grab2: Option<nalgebra::Point2<f32>> = None;
+        let mut grab3: Option<nalgebra::Point3<f32>> = None;
+        let mut size2 = sizes2[0];
+        let size3 = VoxelSize::new(300, 300, 300);
+        let mut tame = true;
         for (step, &ei) in seq.iter().enumerate() {
             let ev = evs[ei];
             let before2 = b2(&c2.view());
@@ -165,6 +173,49 @@ pub fn view(thorough: bool) -> Report {
                     let st3 = cs.map(|(p, d)| CursorState { screen_pos: spos[p], drag: match d { 0 => None, 1 => Some(DragMode::Pan), _ => Some(DragMode::Rotate) } });
                     ch3 = Some(c3.interact(VoxelSize::new(300, 300, 300), st3, scrolls[sc]));
                     match cs { Some((_, d)) if d != 0 => { if mode3.is_none() { mode3 = Some(d); } } _ => { mode3 = None; } }
+                }
+            }
+            // ---- pan clause bookkeeping
+            let cursor: Option<Point2<i32>> = match ev {
+                Ev::End => { grab2 = None; grab3 = None; None }
+                Ev::Resize(sz) => { size2 = sizes2[sz]; grab2 = None; None }   // a resize moves the world position of a pixel: not part of the clause
+                Ev::Zoom(sc, p) => { if !(scrolls[sc].abs() <= 50.0) { tame = false; } if p.is_none() { grab2 = None; grab3 = None; } p.map(|i| spos[i]) }
+                Ev::Begin(p, _) | Ev::Drag(p) => Some(spos[p]),
+                Ev::Interact(sz, cs, sc) => {
+                    if !(scrolls[sc].abs() <= 50.0) { tame = false; }
+                    if sizes2[sz].width() != size2.width() || sizes2[sz].height() != size2.height() { size2 = sizes2[sz]; grab2 = None; }
+                    match cs { Some((p, d)) if d != 0 => Some(spos[p]), _ => { grab2 = None; grab3 = None; None } }
+                }
+            };
+            if let Some(cp) = cursor {
+                let dragging2 = matches!(ev, Ev::Begin(..) | Ev::Drag(..) | Ev::Interact(..) | Ev::Zoom(..));
+                let m2 = c2.view().world_to_model().transform_point(&size2.transform_point(cp));
+                let m3 = c3.view().world_to_model().transform_point(&size3.transform_point(nalgebra::Point3::new(cp.x, cp.y, 0)));
+                // only a drag step puts the grabbed point under the cursor (begin_drag is idempotent and does not move the view; a zoom is about its own position)
+                let moved = matches!(ev, Ev::Drag(..)) || matches!(ev, Ev::Interact(_, Some((_, d)), _) if d != 0);
+                let started = matches!(ev, Ev::Begin(..)) || matches!(ev, Ev::Interact(_, Some((_, d)), _) if d != 0);
+                if tame && dragging2 {
+                    match grab2 {
+                        None => { if started { grab2 = Some(m2); } }
+                        Some(g) => {
+                            // a zoom event at another position than the drag is a different cursor: only drag / interact / zoom-at-the-cursor steps are compared
+                            let tol = 2.0e-3 * (1.0 + g.coords.norm() + m2.coords.norm());
+                            if (m2 - g).norm() > tol && m2.coords.iter().all(|c| c.is_finite()) && moved {
+                                r.fail(sig_of(seq, &evs, step), format!("[pan:canvas2] the model point grabbed at the start of the drag was ({}, {}); after this step the point under the cursor is ({}, {})", g.x, g.y, m2.x, m2.y), json!({"contract":"view"}));
+                            }
+                        }
+                    }
+                    if mode3 == Some(1) {
+                        match grab3 {
+                            None => { if started { grab3 = Some(m3); } }
+                            Some(g) => {
+                                let tol = 2.0e-3 * (1.0 + g.coords.norm() + m3.coords.norm());
+                                if (m3 - g).norm() > tol && m3.coords.iter().all(|c| c.is_finite()) && moved {
+                                    r.fail(sig_of(seq, &evs, step), format!("[pan:canvas3] the model point grabbed at the start of the pan was ({}, {}, {}); after this step the point under the cursor is ({}, {}, {})", g.x, g.y, g.z, m3.x, m3.y, m3.z), json!({"contract":"view"}));
+                                }
+                            }
+                        }
+                    }
                 }
             }
             let after2 = b2(&c2.view());
